@@ -186,7 +186,7 @@ Proof. intros s. apply from_string_good. Qed.
 
 Lemma binary_op_good : forall op l r v, binary_op op l r = Ok v -> good v.
 Proof.
-  intros op l r v. unfold binary_op.
+  intros op l r v. unfold binary_op. destruct (is_date l || is_date r); [discriminate|].
   destruct (to_f64 l), (to_f64 r); intros H; try discriminate H.
   injection H as <-. apply from_float_good.
 Qed.
@@ -236,11 +236,13 @@ Lemma vsub_good : forall a b v, vsub a b = Ok v -> good v.
 Proof. intros a b v. apply vsub_typed_good. Qed.
 Lemma vmul_good : forall a b v, vmul a b = Ok v -> good v.
 Proof. intros a b v. apply vmul_typed_good. Qed.
-Lemma vdiv_good : forall a b v, vdiv a b = Ok v -> good v.
+Lemma vdiv_typed_good : forall a b v, vdiv_typed a b = Ok v -> good v.
 Proof.
-  intros l r v H. destruct l, r; cbn [vdiv] in H;
+  intros l r v H. destruct l, r; cbn [vdiv_typed] in H;
     try match type of H with (if ?c then _ else _) = _ => destruct c end; arith_case H.
 Qed.
+Lemma vdiv_good : forall a b v, vdiv a b = Ok v -> good v.
+Proof. intros a b v. apply vdiv_typed_good. Qed.
 
 Theorem vadd_normalised : forall a b v, vadd a b = Ok v -> normalised v.
 Proof. intros a b v H. apply (vadd_good a b v H). Qed.
